@@ -43,6 +43,8 @@ FIXED = [
  ("F38", "C07", "f10853f", "follow-up of F18: settling a new metadata cluster waited for the cluster's lock while holding the new-cluster map's read lock, and cache flush holds that cluster's lock while taking the map's write lock: deadlock between discard/copy-on-write and flush_meta", "regress/C07/settle-vs-flush-deadlock.json"),
  ("F39", "C05", "b237dee", "follow-up of F17: a reused preallocation was zeroed lazily like a new cluster, but no refcount changes, so no sync separated the zeroing from the flush of the new mapping: after a crash the mapping pointed at the stale preallocated content", "regress/C05/prealloc-reuse-exposes-stale-content.json"),
  ("F40", "C17", "47acbfa", "follow-up of F39: a failure while zeroing a preallocation in the middle of populating the mappings of one multi-cluster write returned before the L2 slice was marked dirty, so the mappings already made were never flushed", "regress/C17/prealloc-partial-mapping-not-dirty.json"),
+ ("F41", "C20", "ff62ca5", "Qcow2Dev::check() / rqcow2 check took the host cluster after a compressed cluster that ends exactly on a cluster boundary as referenced, so a leaked cluster there was accepted", "regress/C20/check-misses-leak-after-boundary-compressed.json"),
+ ("F42", "C04", "f310ed5", "two parts of one multi-cluster copy-on-write write (or a writer and flush_meta) flushed refcounts concurrently: the second caller of flush_refcount() found the dirty flags already cleared by the first, returned before the refcount block was written and synced, and wrote its L2 slice; a crash kept the mapping with refcount 0", "regress/C04/concurrent-refcount-flush-skipped.json"),
  ("F11", "C03", "c069255", "writing to a zero-flagged cluster with a preallocation leaked the preallocated host cluster", "regress/C03/zero-prealloc-write-leaks.json"),
 ]
 KNOWN = [
@@ -53,7 +55,10 @@ KNOWN = [
            "lands in, or is wiped from, a host cluster already re-allocated to another guest cluster (history contains a batch "
            "in which a discard runs concurrently with other calls)",
       rules=["ReadData", "Frame", "Reopen"], tags=["hist:concurrent_discard"],
-      reproducer="findings/C06-discard-race.json", domain="conc"),
+      reproducer="findings/C06-discard-race.json",
+      reproducers=["findings/C06-discard-race.json", "findings/C06-discard-not-synchronised-with-inflight-io-r1.json",
+                   "findings/C06-discard-not-synchronised-with-inflight-io-r2.json",
+                   "findings/C06-discard-not-synchronised-with-inflight-io-r0.json"], domain="conc"),
  dict(id="C06-slice-eviction-under-concurrency", property="C06",
       what="metadata caches smaller than the set of slices in use: AsyncLruCache evicts slices while several tasks run "
            "(__pop_lru falls back to entries still held; a dirty victim is written back after it left the map), so updates made "
@@ -85,7 +90,8 @@ KNOWN = [
  dict(id="C12-l1-growth", property="C12",
       what="images whose header lists fewer L1 entries than the virtual size needs: extending l1_size in place claims clusters the "
            "L1 table does not own (the next cluster is then used as L1 and as L2/data), and the relocation path writes only the "
-           "dirty blocks of the new table (case predicate: image built with l1_size smaller than needed)",
+           "dirty blocks of the new table (case predicate: the L1 entries the virtual size needs occupy more clusters than the "
+           "L1 table described by the header owns)",
       rules=[], tags=["image:l1_short"],
       reproducer="findings/C12-l1-growth.json", domain="seq"),
  dict(id="C12-slice-eviction-under-concurrency", property="C12",
@@ -109,7 +115,9 @@ KNOWN = [
            "tasks run is lost from the cache, so after flush_meta the flag is false although file and memory disagree "
            "(history contains an eviction during a concurrent batch)",
       rules=["NeedFlush"], tags=["hist:eviction_during_concurrency"],
-      reproducer="findings/C18-eviction-race.json", domain="conc"),
+      reproducer="findings/C18-eviction-race.json",
+      reproducers=["findings/C18-eviction-race.json", "findings/C18-slice-eviction-under-concurrency-r0.json",
+                   "findings/C18-slice-eviction-under-concurrency-r1.json"], domain="conc"),
 ]
 def main():
     out = []
